@@ -45,8 +45,13 @@ fn main() {
         let desc = format!("round {round}: n={n} accesses={:?} user edges(insertion order)={es:?}", accs.iter().map(|a| (a.reads.clone(), a.writes.clone())).collect::<Vec<_>>());
         let mut b = FnGraphBuilder::new();
         let ids: Vec<FnId> = accs.iter().cloned().map(|a| b.add_fn(a)).collect();
-        for &(x, y, logic) in &es {
-            if logic { b.add_logic_edge(ids[x], ids[y]).unwrap(); } else { b.add_contains_edge(ids[x], ids[y]).unwrap(); }
+        // single-edge and batch forms alternate by round
+        for (k, &(x, y, logic)) in es.iter().enumerate() {
+            if (round + k) % 2 == 0 {
+                if logic { b.add_logic_edge(ids[x], ids[y]).unwrap(); } else { b.add_contains_edge(ids[x], ids[y]).unwrap(); }
+            } else {
+                if logic { b.add_logic_edges([(ids[x], ids[y])]).unwrap(); } else { b.add_contains_edges([(ids[x], ids[y])]).unwrap(); }
+            }
         }
         let res = std::panic::catch_unwind(std::panic::AssertUnwindSafe(|| b.build()));
         let g = match res { Ok(g) => g, Err(_) => { println!("VIOLATION (build panicked): {desc}"); std::process::exit(1); } };
